@@ -62,6 +62,12 @@ class CoreHooks(Hooks):
             st.ev('prefix-compare', inst, args[0], args[1], args[2], d.split('(')[0])
             st.rng.setdefault('cmp', (-(1 << 31), (1 << 31) - 1))
             return [(st, IntV(32, Lin.atom('cmp'), 's'))]
+        if d in ('memcmp', 'bcmp') and len(args) >= 3:
+            # a bytewise comparison standing in for the unit comparator: recorded with what it is
+            st.ev('byte-compare', inst, args[0], args[1], args[2], d)
+            st.ev('prefix-compare', inst, args[0], args[1], args[2], d)
+            st.rng.setdefault('cmp', (-(1 << 31), (1 << 31) - 1))
+            return [(st, IntV(32, Lin.atom('cmp'), 's'))]
         if re.match(r'^std::char_traits<[\w ]+>::length\(', d) and isinstance(args[0], PtrV) and args[0].obj == 'STR' and not args[0].off.t and args[0].off.c == 0 \
                 and 'slen' in st.rng:
             return [(st, IntV(64, Lin.atom('slen'), 'u'))]
@@ -101,6 +107,14 @@ def cores(run, m, F, E):
                 und.append('%d calls of the prefix comparator on one path' % len(pc))
                 continue
             _, inst, a0, a1, cnt, who = pc[0]
+            if who in ('memcmp', 'bcmp'):
+                ebw = {'char': 1, 'char16_t': 2, 'char32_t': 4, 'wchar_t': 4}.get((re.match(r'^ST::buffer<(\w+)>', f.dem) or re.match(r'(char)', 'char')).group(1), 1)
+                if ebw > 1:
+                    problems.append('the common prefix is ordered by %s over %d-byte units: the order of their byte images, not of their values (on a '
+                                    'little-endian host U+00FF sorts after U+0100; witness the one-unit texts {0x00FF} and {0x0100})' % (who, ebw))
+                    continue
+                und.append('the prefix is compared with %s: not analysed further' % who)
+                continue
             # prefix length = min(lsize, rsize), pointers as given
             cl = I.as_u(s2, cnt) if isinstance(cnt, IntV) else None
             mn = ls.lin if s2.is_ge0(rs.lin - ls.lin) is True else (rs.lin if s2.is_ge0(ls.lin - rs.lin) is True else None)
